@@ -141,7 +141,8 @@ def h_fit(h, name, user_bounds, loss=None):
     for v in numpy.asarray(call.r, dtype=object).ravel():
         ssq = ssq + v * v
     q = m.rmse * rng         # (kept as one factor: the query stays quadratic)
-    h.claim(f'{cid}/rmse^2*n*range^2==sum(r^2)', h.eq(q * q * k, ssq) & (q >= 0))
+    # (tolerance, not exact equality: an equivalent formulation may go through an irrational float constant such as sqrt(n))
+    h.claim(f'{cid}/rmse^2*n*range^2==sum(r^2)', h.close(q * q * k, ssq, 1e-9) & (q >= 0))
 
 
 def h_guess_bounds(h):
